@@ -14,7 +14,7 @@ TRUSTED = ["tokio::time::sleep / Interval (Burst) semantics: never completes ear
 ASSUMPTIONS = ["a virtual clock is not simulated; only the code shape around the timer primitives is decided"]
 
 DOC = {
- "C12.R1": "one-shot bodies: exactly one effect call, not in a cycle, dominated by the Ready edge of the await of sleep(period) with period originating unmodified from the parameter; the effect class matches the function's name (send_after->send_message, exit_after->stop, kill_after->kill)",
+ "C12.R1": "one-shot bodies: exactly one effect call, not in a cycle, dominated by the Ready edge of the await of sleep(period) with period originating unmodified from the parameter and performed on every path from there to the end (unconditional); the effect class matches the function's name (send_after->send_message, exit_after->stop, kill_after->kill)",
  "C12.R2": "send_after: the task's result is the send's result (errors are reported through the handle)",
  "C12.R3": "interval bodies: interval(period) from the unmodified parameter; one tick awaited before the cycle; each in-cycle send dominated by an in-cycle tick; cycle guarded by a per-iteration status test (comparisons and/or membership in a constant table whose contents are read from its MIR) that excludes Draining/Stopping/Stopped; failed send leaves the cycle; no sleep in the cycle",
  "C12.R4": "twins: ActorRef/DerivedActorRef::{send_interval,send_after,exit_after,kill_after} delegate to the free function of the same name or contain a body that passes R1/R3 under that name",
@@ -77,6 +77,11 @@ def r1(run, db):
         run.check(good, key + "|sleep-period", "sleep's argument is the %s" % why, "sleep's argument is not the unmodified period parameter (%s)" % why, sl[0].where())
         aw = await_of_call(f, sl[0])
         run.check(len(aw) == 1 and aw[0].completes_before(eff[0].site), key + "|effect-after-sleep", "the effect is dominated by the completed sleep (never early)", "the effect can happen before the sleep completed", eff[0].where())
+        if len(aw) == 1 and aw[0].ready_edge is not None:
+            run.check(f.must_pass(Site(aw[0].ready_edge[1], 0), [eff[0].site]), key + "|effect-unconditional",
+                      "once the period has elapsed the effect is performed on every path (no status or other short-cut around it)",
+                      "%s can finish without performing its effect after the period elapsed (a path from the completed sleep to the end avoids the %s call): e.g. a target already inside post_stop would never be %s" % (
+                          nm, eff[0].name.split("::")[-1], {"kill_after": "killed", "exit_after": "stopped"}.get(nm, "sent the message")), eff[0].where())
         run.check(not f.in_cycle(eff[0].site), key + "|effect-once", "the effect is not in a cycle (fires once)", "the effect is inside a cycle", eff[0].where())
         if nm == "exit_after":
             from .c04 import const_strings
